@@ -228,6 +228,51 @@ def run(tier, seed):
         if len(acc) >= target: flush()
     flush()
     v = vlib.validate('TraceParse.tla', 'TraceParse.cfg', chunks, wd, timeout=3000)
+    # the command line tools read their input in pieces too (read(2) on a pipe returns what has arrived): echse unroll and echse merge
+    # of a file against the same bytes arriving on the standard input in several pieces, some time apart.  Same relation, same judge
+    # (the "instructions" are the lines the tool prints; merge stamps its output with the time of day, that line is left out)
+    import time as _t, concurrent.futures as cf2
+    def cli(cmd, data, cuts):
+        args = [f'{B}/echse'] + cmd
+        try:
+            if cuts is None:
+                p = subprocess.run(args, input=data, capture_output=True, timeout=60, env=env)
+                out, rc = p.stdout, p.returncode
+            else:
+                p = subprocess.Popen(args, stdin=subprocess.PIPE, stdout=subprocess.PIPE, stderr=subprocess.DEVNULL, env=env)
+                a = 0
+                for c in cuts + [len(data)]:
+                    try: p.stdin.write(data[a:c]); p.stdin.flush()
+                    except BrokenPipeError: break
+                    a = c; _t.sleep(0.03)
+                try: p.stdin.close()
+                except BrokenPipeError: pass
+                out = p.stdout.read(); rc = p.wait(timeout=60)
+        except subprocess.TimeoutExpired:
+            return {'timeout': True}
+        # the exit status is part of what the tool says; a signal or a sanitizer report is the tool dying
+        r = {'ins': [l for l in out.decode('latin1').split('\n') if l and not l.startswith('DTSTAMP:')] + ['exit status %d' % rc]}
+        if rc < 0 or rc == 99: r['crash'] = rc
+        return r
+    cjobs = []
+    pick = [g for g in groups if g[0].startswith(('gen:plain', 'gen:fold8', 'gen:fold20', 'gen:foreign', 'gen:multi0', 'gen:multi1', 'file:'))]
+    pick = [g for g in pick if not g[0].startswith('file:')] + rnd.sample([g for g in pick if g[0].startswith('file:')], min(6, len([g for g in pick if g[0].startswith('file:')])))
+    for name, b, _ in pick:
+        n = len(b)
+        if n < 40: continue
+        cutsets = [None, [n // 2], [n // 3, 2 * n // 3], sorted(rnd.sample(range(1, n), 4)), [b.find(b'END:VEVENT') + 10] if b.find(b'END:VEVENT') > 0 else [n // 4], list(range(64, n, 64))[:40]]
+        for cmd in (['unroll', '--till', '2031-06-01'], ['merge']):
+            for cs in cutsets: cjobs.append((name, cmd, cs))
+    bmap = {name: b for name, b, _ in pick}
+    with cf2.ThreadPoolExecutor(max_workers=vlib.NCPU * 2) as ex:
+        cres = list(ex.map(lambda j: cli(j[1], bmap[j[0]], j[2]), cjobs))
+    ctrace = f'{wd}/cli.ndjson'; refline = 0
+    with open(ctrace, 'w') as f:
+        for k, ((name, cmd, cs), r) in enumerate(zip(cjobs, cres)):
+            if cs is None: refline = k + 1
+            r.setdefault('ins', []); r['ref'] = refline; r['input'] = name; r['cmd'] = cmd[0]; r['part'] = 'whole' if cs is None else ','.join(map(str, cs))[:80]
+            f.write(json.dumps(r) + '\n')
+    vc = vlib.validate('TraceParse.tla', 'TraceParse.cfg', [(ctrace, 0)], wd, timeout=600)
     # group names for replay artefacts
     names = {}
     idx = 0
@@ -244,12 +289,16 @@ def run(tier, seed):
         art = {'input': gname, 'bytes_hex': gb.hex(), 'partition': rec['part'], 'got': rec.get('ins'), 'whole': ref.get('ins'), 'crash': rec.get('crash'), 'timeout': rec.get('timeout'), 'why': rec.get('why')}
         derived = {'kind': gname.split(':')[0], 'name': gname}
         bad.append((vlib.save_replay(PID, f'{gname.replace(":", "_").replace("/", "_")}_{seen_groups[gname]}.json', art), dict(rec, **derived)))
+    for fn, k, g in vc['bad'][:40]:
+        rec = json.loads(vlib.getline(fn, k)); ref = json.loads(vlib.getline(fn, rec['ref']))
+        art = {'input': rec['input'], 'bytes_hex': bmap[rec['input']].hex(), 'tool': 'echse ' + rec['cmd'], 'pieces_end_at': rec['part'], 'got': rec.get('ins'), 'whole': ref.get('ins'), 'crash': rec.get('crash'), 'timeout': rec.get('timeout')}
+        bad.append((vlib.save_replay(PID, f'cli_{g}.json', art), dict(rec, kind='cli', name=rec['input'])))
     unlisted, listed = vlib.classify(PID, bad)
     cov = {'states': e1['states'], 'transitions': e1['transitions'], 'traces_validated_against_impl': len(lines),
            'samples': [{'input': groups[nmodel][0], 'partition': inp[refs[-1]][-40:]}, {'input': groups[3][0], 'bytes_hex': groups[3][1].hex()[-60:]}],
            'evaluations': len(lines), 'distinct_nontrivial': len(lines) - len(groups),
            'rule': 'one case = (byte string, partition into chunks); non-trivial = a partition with >= 2 chunks (the single-chunk run of each string is the reference). Strings: every string of length <= %d over {a : CR LF SP HT backslash} embedded as a SUMMARY value with ALL partitions of the embedded region; repository sample calendars; generated calendars with folds at many columns, CRLF/LF, escapes, ~1 KiB lines, truncations, garbage; partitions: 1-byte chunks, every single split point, split pairs around CR/LF/SP/HT/backslash, 4096-byte chunks, seeded random' % maxlen,
-           'inputs': len(groups), 'model_strings': nmodel, 'mismatching_runs': v['nbad'], 'inputs_with_mismatch': len(seen_groups), 'skipped': v['nskip'],
+           'inputs': len(groups), 'model_strings': nmodel, 'cli_runs': len(cjobs), 'cli_mismatching': vc['nbad'], 'mismatching_runs': v['nbad'] + vc['nbad'], 'inputs_with_mismatch': len(seen_groups), 'skipped': v['nskip'],
            'model_drift_runs': sum(x.get('ndrift', 0) for x in v['extra']),
            'sanitizers': 'driver and library built with -fsanitize=address,bounds; chunks are exact-size heap blocks',
            'e1_actions': e1['coverage'], 'exhaustive': False}
